@@ -344,6 +344,158 @@ Section Quiescent.
   Qed.
 End Quiescent.
 
+(* ---------- a readable description of `touches` ---------- *)
+Definition in_block (c : call) (f : N) : Prop := c_frame c <= f < c_frame c + c_n c.
+Definition splitting (p : pc) : bool :=
+  match p with
+  | TL (XSplit _) | TC (XSplit _) _ | TN (XSplit _) | TW (XSplit _) _ | TU (XSplit _) _ | PP2 _ => true
+  | _ => false
+  end.
+
+Section Readable.
+  Variable g : geom.
+  Hypothesis wf : wf_geom g.
+  Notation HF := (HF g).
+  Notation TF := (TF g).
+  Notation THUGE := (THUGE g).
+  Notation ROWS := (ROWS g).
+
+  Ltac tsimp H := unfold touches in H; cbv zeta in H;
+    cbn [ghost_of gpc gtoggle gpend gtr gown ghuge gput gsplit gh0 g_h own_lo own_n tr_lo tr_n p_n nd hu is_put is_get is_getat] in H.
+
+  (* f in row r of huge frame h *)
+  Lemma in_row_bounds f h lo cnt : (f / HF =? h) && inb lo cnt ((f mod HF) / 64) = true ->
+    h * HF + lo * 64 <= f < h * HF + (lo + cnt) * 64.
+  Proof.
+    intros H. apply andb_true_iff in H. destruct H as (Hh & Hr). apply N.eqb_eq in Hh. unfold inb in Hr.
+    pose proof (HF_pos g). pose proof (N.div_mod f HF ltac:(lia)) as D. rewrite Hh in D.
+    pose proof (N.div_mod (f mod HF) 64 ltac:(lia)) as D2. pose proof (N.mod_lt (f mod HF) 64 ltac:(lia)). lia.
+  Qed.
+
+  Lemma touches_getat fr f0 k p f : cwf g fr (CGetAt f0 k) = true -> lpc g fr (CGetAt f0 k) p = true ->
+    touches g (TRun (CGetAt f0 k) p) f = true -> in_block (CGetAt f0 k) f.
+  Proof.
+    intros Hc L T. unfold in_block. pose proof (HF_pos g) as HP.
+    destruct p; try destruct x; cbn [lpc ctx_ok not_xput is_get is_getat is_put andb negb] in L; rewrite ?andb_false_r, ?andb_true_r in L; try discriminate L;
+      tsimp T.
+    all: try (unfold inb in T; exfalso; lia).
+    - (* HC *) assert (Hk : (hord g <= c_order (CGetAt f0 k))%nat) by lia.
+      destruct (huge_call_aligned_geom g fr (CGetAt f0 k) Hc Hk eq_refl) as (E1 & E2).
+      cbn [group_h] in T. rewrite E2, E1. unfold inb in T. nia.
+    - (* HU *) assert (Hk : (hord g <= c_order (CGetAt f0 k))%nat) by lia.
+      destruct (huge_call_aligned_geom g fr (CGetAt f0 k) Hc Hk eq_refl) as (E1 & E2).
+      cbn [group_h] in T. rewrite E2, E1. unfold inb in T. nia.
+    - (* TW *) apply orb_true_iff in T. destruct T as [T|T]; [unfold inb in T; lia|].
+      apply in_row_bounds in T. unfold t_nrows in L. cbn [t_order] in L.
+      apply andb_true_iff in L. destruct L as (L & Hq). apply andb_true_iff in L. destruct L as (Hs & H7). apply Nat.leb_le in H7.
+      destruct (toggle_rows_fit g wf fr (CGetAt f0 k) Hc Hs eq_refl H7) as (E0 & En & Hfit).
+      destruct (small_call_decomp g wf fr (CGetAt f0 k) Hc Hs eq_refl) as (Ed & _).
+      rewrite En, Ed, E0. unfold fidx. change (t_row g XGetAt (CGetAt f0 k)) with (t_row g XPut (CGetAt f0 k)) in T. lia.
+    - (* TU *) apply orb_true_iff in T. destruct T as [T|T]; [unfold inb in T; lia|].
+      apply in_row_bounds in T. unfold t_nrows in L. cbn [t_order] in L.
+      apply andb_true_iff in L. destruct L as (L & Hq). apply andb_true_iff in L. destruct L as (Hs & H7). apply Nat.leb_le in H7.
+      destruct (toggle_rows_fit g wf fr (CGetAt f0 k) Hc Hs eq_refl H7) as (E0 & En & Hfit).
+      destruct (small_call_decomp g wf fr (CGetAt f0 k) Hc Hs eq_refl) as (Ed & _).
+      rewrite En, Ed, E0. unfold fidx. change (t_row g XGetAt (CGetAt f0 k)) with (t_row g XPut (CGetAt f0 k)) in T. lia.
+  Qed.
+
+  Lemma touches_put fr f0 k p f : cwf g fr (CPut f0 k) = true -> lpc g fr (CPut f0 k) p = true ->
+    touches g (TRun (CPut f0 k) p) f = true ->
+    in_block (CPut f0 k) f \/ (splitting p = true /\ f / HF = c_huge g (CPut f0 k)).
+  Proof.
+    intros Hc L T. unfold in_block. pose proof (HF_pos g) as HP.
+    destruct p; try destruct x; cbn [lpc ctx_ok not_xput is_get is_getat is_put andb negb] in L; rewrite ?andb_false_r, ?andb_true_r in L; try discriminate L;
+      tsimp T; cbn [splitting].
+    all: try (unfold inb in T; exfalso; lia).
+    all: try (left; unfold inb in T; lia).
+    all: try (apply orb_true_iff in T; destruct T as [T|T]; [left; unfold inb in T; lia|right; split; [reflexivity|];
+              apply andb_true_iff in T; destruct T as (T & _); apply N.eqb_eq in T; exact T]).
+  Qed.
+
+  (* an aligned block of order k <= tord lies in one tree *)
+  Lemma block_in_tree G k f : (k <= tord g)%nat -> G mod pow2 k = 0 -> G <= f < G + pow2 k -> f / TF = G / TF.
+  Proof.
+    intros Hk Hal Hf. pose proof (pow2_nz k) as HP. pose proof (pow2_nz (tord g - k)) as HM.
+    assert (ET : TF = pow2 k * pow2 (tord g - k)) by (rewrite (TF_pow2 g), (pow2_split k (tord g) Hk); lia).
+    pose proof (TF_pos g) as PT.
+    pose proof (N.div_mod G TF ltac:(lia)) as D. pose proof (N.mod_lt G TF ltac:(lia)) as Lr.
+    assert (Hr : (G mod TF) mod pow2 k = 0) by (rewrite ET; apply mod_mod_aligned; assumption).
+    assert (Hfit : G mod TF + pow2 k <= TF).
+    { apply aligned_fit; [exact HP| |exact Hr|exact Lr]. rewrite ET, N.mul_comm. apply N.mod_mul. exact HP. }
+    symmetry. apply (N.div_unique _ _ _ (G mod TF + (f - G))); lia.
+  Qed.
+
+  Lemma tbase_tree c y : y < THUGE -> (c_tbase g c + y) / THUGE = c_frame c / TF.
+  Proof.
+    intros Hy. unfold c_tbase. symmetry. apply (N.div_unique _ _ _ y); [exact Hy|lia].
+  Qed.
+
+  Lemma touches_get fr st k p f : cwf g fr (CGet st k) = true -> lpc g fr (CGet st k) p = true ->
+    touches g (TRun (CGet st k) p) f = true ->
+    ((7 <= k)%nat \/ (hord g <= k)%nat) /\ f / TF = st * 64 / TF.
+  Proof.
+    intros Hc L T. pose proof (HF_pos g) as HP. pose proof (THUGE_pos g) as PT.
+    change (st * 64) with (c_frame (CGet st k)).
+    destruct p; try destruct x; cbn [lpc ctx_ok not_xput is_get is_getat is_put andb negb] in L; rewrite ?andb_false_r, ?andb_true_r in L; try discriminate L;
+      tsimp T.
+    all: try (unfold inb in T; exfalso; lia).
+    - (* G2W *) apply orb_true_iff in T. destruct T as [T|T]; [unfold inb in T; lia|].
+      apply andb_true_iff in T. destruct T as (T & _). apply N.eqb_eq in T.
+      split; [left; cbn [c_order] in L; lia|]. rewrite (div_TF g f), T. unfold child_h.
+      apply tbase_tree. apply N.mod_lt. lia.
+    - (* G2U *) apply orb_true_iff in T. destruct T as [T|T]; [unfold inb in T; lia|].
+      apply andb_true_iff in T. destruct T as (T & _). apply N.eqb_eq in T.
+      split; [left; cbn [c_order] in L; lia|]. rewrite (div_TF g f), T. unfold child_h.
+      apply tbase_tree. apply N.mod_lt. lia.
+    - (* HC *) apply orb_true_iff in T. destruct T as [T|T]; [|unfold inb in T; lia].
+      assert (Hk : (hord g <= c_order (CGet st k))%nat) by lia.
+      split; [right; exact Hk|].
+      destruct (huge_group g fr (CGet st k) gi Hc Hk) as (_ & Hal).
+      assert (Ek : pow2 (c_order (CGet st k)) = c_hnum g (CGet st k) * HF) by (unfold c_hnum; rewrite (HF_pow2 g); apply pow2_split; exact Hk).
+      assert (Hto : (c_order (CGet st k) <= tord g)%nat) by (unfold cwf in Hc; lia).
+      rewrite (block_in_tree (group_h g (CGet st k) gi * HF) (c_order (CGet st k)) f Hto Hal) by (rewrite Ek; unfold inb in T; nia).
+      rewrite (TF_eq g), N.div_mul_cancel_r by lia. cbn [group_h]. apply tbase_tree. apply N.mod_lt. lia.
+    - (* HU *) apply orb_true_iff in T. destruct T as [T|T]; [|unfold inb in T; lia].
+      assert (Hk : (hord g <= c_order (CGet st k))%nat) by lia.
+      split; [right; exact Hk|].
+      destruct (huge_group g fr (CGet st k) gi Hc Hk) as (_ & Hal).
+      assert (Ek : pow2 (c_order (CGet st k)) = c_hnum g (CGet st k) * HF) by (unfold c_hnum; rewrite (HF_pow2 g); apply pow2_split; exact Hk).
+      assert (Hto : (c_order (CGet st k) <= tord g)%nat) by (unfold cwf in Hc; lia).
+      rewrite (block_in_tree (group_h g (CGet st k) gi * HF) (c_order (CGet st k)) f Hto Hal) by (rewrite Ek; unfold inb in T; nia).
+      rewrite (TF_eq g), N.div_mul_cancel_r by lia. cbn [group_h]. apply tbase_tree. apply N.mod_lt. lia.
+  Qed.
+
+  (* ---------- what `touches` means, per kind of call ---------- *)
+  Definition touch_shape (x : thr) (f : N) : Prop :=
+    match x with
+    | TIdle _ => False
+    | TPanic st c => st = SExceedingRetries /\ is_put c = true /\ in_block c f
+    | TRun (CPut f0 k) p => in_block (CPut f0 k) f \/ (splitting p = true /\ f / HF = f0 / HF)
+    | TRun (CGetAt f0 k) p => in_block (CGetAt f0 k) f
+    | TRun (CGet st k) p => ((7 <= k)%nat \/ (hord g <= k)%nat) /\ f / TF = st * 64 / TF
+    end.
+
+  Lemma touches_shape fr x f : local_b g fr x = true -> touches g x f = true -> touch_shape x f.
+  Proof.
+    intros L T. destruct x as [l|c p|st c].
+    - rewrite (idle_touches g) in T. discriminate.
+    - cbn [local_b] in L. apply andb_true_iff in L. destruct L as (Hc & L). destruct c; cbn [touch_shape].
+      + exact (touches_get fr _ _ p f Hc L T).
+      + exact (touches_getat fr _ _ p f Hc L T).
+      + exact (touches_put fr _ _ p f Hc L T).
+    - cbn [touch_shape]. destruct st; tsimp T; try (unfold inb in T; exfalso; lia).
+      cbn [local_b] in L. split; [reflexivity|]. split; [lia|]. unfold in_block. unfold inb in T. lia.
+  Qed.
+
+  (* a touched frame lies in the block of an in-flight put or get_at, or in the huge frame of an in-flight split,
+     or in the tree searched by an in-flight get of at least 64 frames *)
+  Theorem touched_readable s f : Inv g s -> touched g s f -> exists x, In x (ms_pool s) /\ touch_shape x f.
+  Proof.
+    intros I (x & Hx & T). exists x. split; [exact Hx|].
+    apply (touches_shape (ms_frames s)); [|exact T]. exact (proj1 (Forall_forall _ _) (I_L g s I) x Hx).
+  Qed.
+End Readable.
+
 (* ====================================================================================== *)
 (* the theorems over reachable states                                                      *)
 (* ====================================================================================== *)
@@ -490,3 +642,83 @@ Proof.
   intros g l held0 n sch wf HL HI s Q. apply (lower_stats_abs g wf).
   apply (quiescent_inv g wf s (conc_inv g l held0 n sch wf HL HI) Q).
 Qed.
+
+(* ====================================================================================== *)
+(* non-vacuity: three crash points with calls in flight, and what recovery yields          *)
+(* ====================================================================================== *)
+Definition gx8 : geom := {| hord := 8; tlog := 1 |}.       (* 256-frame huge frames = 4 rows, 2 per tree *)
+Lemma wf_gx8 : wf_geom gx8. Proof. unfold wf_geom; cbn; lia. Qed.
+Definition recovered (s : mstate) : lower := lower_recover gx8 (lower_of s).
+(* frames lo .. lo+n-1 are all: allocated after recovery, not held, touched *)
+Definition lost_b (s : mstate) (lo n : N) : bool :=
+  forallb (fun i => N.testbit (o_alloc (abs gx8 (recovered s))) (lo + i) && negb (covered_b s (lo + i)) && touched_b gx8 s (lo + i)) (nseq n).
+Definition free_after_b (s : mstate) (lo n : N) : bool :=
+  forallb (fun i => negb (N.testbit (o_alloc (abs gx8 (recovered s))) (lo + i))) (nseq n).
+
+(* 1. in the middle of a multi-row get (order 7 = 2 rows): counter already decremented by 128, first row filled.
+      Recovery rewrites the counter to the number of zero bits (192); the 64 frames of the filled row stay
+      allocated: they are touched (transit row of the in-flight get), nothing else is. *)
+Definition ex_get := mrun gx8 ([(0%nat, CGet 0 7)] ++ run_n 0 5) (boot (free_all gx8 512) [] 1).
+Example crash_mid_get :
+  ms_pool ex_get = [TRun (CGet 0 7) (G2W 0 0 1)] /\
+  ms_ents ex_get = [128; 256] /\ ms_bfs ex_get = [[MAX64; 0; 0; 0]; [0; 0; 0; 0]] /\
+  ents (recovered ex_get) = [192; 256] /\ bfs (recovered ex_get) = ms_bfs ex_get /\
+  lost_b ex_get 0 64 = true /\ free_after_b ex_get 64 448 = true /\
+  crash_ok_b gx8 ex_get = true.
+Proof. vm_compute. repeat split. Qed.
+
+(* 2. in the middle of a split: thread 0 frees frame 5 of a held huge frame and is frozen at PP2 (all rows
+      filled, marker not yet cleared).  Recovery keeps the marker and clears the bitfield: the whole huge frame
+      is allocated again; the siblings the client still holds are all freeable at their orders; frame 5 itself
+      (the in-flight free) stays allocated. *)
+Definition ex_split := mrun gx8 ([(0%nat, CPut 5 0)] ++ run_n 0 5) (boot (reserve_all gx8 512) (alloc_all_held gx8 512) 2).
+Example crash_mid_split :
+  ms_pool ex_split = [TRun (CPut 5 0) (PP2 MARK); TIdle None] /\
+  ms_ents ex_split = [MARK; MARK] /\ ms_bfs ex_split = [[MAX64; MAX64; MAX64; MAX64]; [0; 0; 0; 0]] /\
+  ms_held ex_split = [(4, 0%nat); (6, 1%nat); (0, 2%nat); (8, 3%nat); (16, 4%nat); (32, 5%nat); (64, 6%nat); (128, 7%nat); (256, 8%nat)] /\
+  ents (recovered ex_split) = [MARK; MARK] /\ bfs (recovered ex_split) = [[0; 0; 0; 0]; [0; 0; 0; 0]] /\
+  forallb (fun b => spec_put_enabled gx8 (abs gx8 (recovered ex_split)) (fst b) (snd b)) (ms_held ex_split) = true /\
+  lost_b ex_split 5 1 = true /\
+  crash_ok_b gx8 ex_split = true.
+Proof. vm_compute. repeat split. Qed.
+
+(* 3. the stale-split window.  Thread 1 starts freeing frame 200 of a held huge frame and sees the marker (P1);
+      thread 0 then frees frames 0..63 of the same huge frame: it performs the whole split and RETURNS Ok; the
+      huge frame now has counter 64 and row 0 clear.  Thread 1, still believing it has to split, fills row 0
+      (its CAS 0 -> MAX64 succeeds) before failing on row 1 and rolling back.  A crash inside that window
+      leaves frames 0..63 allocated although their free completed: they are `touched` by thread 1's put. *)
+Definition ex_stale_pre := mrun gx8 ([(1%nat, CPut 200 0)] ++ run_n 1 1 ++ [(0%nat, CPut 0 6)] ++ run_n 0 9)
+                                (boot (reserve_all gx8 512) (alloc_all_held gx8 512) 2).
+Definition ex_stale := fst (mstep gx8 ex_stale_pre 1 (CGet 0 0)).
+Example crash_stale_split :
+  ms_pool ex_stale_pre = [TIdle (Some (Ok 0)); TRun (CPut 200 0) (TW (XSplit MARK) 0)] /\
+  ms_ents ex_stale_pre = [64; MARK] /\ ms_bfs ex_stale_pre = [[0; MAX64; MAX64; MAX64]; [0; 0; 0; 0]] /\
+  free_after_b ex_stale_pre 0 64 = true /\ crash_ok_b gx8 ex_stale_pre = true /\
+  ms_pool ex_stale = [TIdle (Some (Ok 0)); TRun (CPut 200 0) (TW (XSplit MARK) 1)] /\
+  ms_ents ex_stale = [64; MARK] /\ ms_bfs ex_stale = [[MAX64; MAX64; MAX64; MAX64]; [0; 0; 0; 0]] /\
+  ents (recovered ex_stale) = [0; MARK] /\
+  lost_b ex_stale 0 64 = true /\ lost_b ex_stale 200 1 = true /\
+  forallb (fun b => spec_put_enabled gx8 (abs gx8 (recovered ex_stale)) (fst b) (snd b)) (ms_held ex_stale) = true /\
+  crash_ok_b gx8 ex_stale = true /\
+  (* without the crash thread 1 rolls back and completes: solo, 12 more steps *)
+  ms_pool (mrun gx8 (run_n 1 12) ex_stale) = [TIdle (Some (Ok 0)); TIdle (Some (Ok 0))] /\
+  ms_ents (mrun gx8 (run_n 1 12) ex_stale) = [65; MARK].
+Proof. vm_compute. repeat split. Qed.
+
+(* 4. a quiescent crash point: recovery is the identity *)
+Definition ex_quiet := mrun gx8 ([(0%nat, CGet 0 3)] ++ run_n 0 4 ++ [(1%nat, CGetAt 256 8)] ++ run_n 1 1)
+                            (boot (free_all gx8 512) [] 2).
+Example crash_quiet :
+  ms_pool ex_quiet = [TIdle (Some (Ok 0)); TIdle (Some (Ok 256))] /\ ms_held ex_quiet = [(256, 8%nat); (0, 3%nat)] /\
+  recovered ex_quiet = lower_of ex_quiet /\ ms_ents ex_quiet = [248; MARK] /\ crash_ok_b gx8 ex_quiet = true.
+Proof. vm_compute. repeat split. Qed.
+
+Print Assumptions crash_safe.
+Print Assumptions crash_abs.
+Print Assumptions crash_free_stays_free.
+Print Assumptions crash_quiescent.
+Print Assumptions crash_counts_agree.
+Print Assumptions crash_quiescent_counts.
+Print Assumptions crash_safe_free_all.
+Print Assumptions crash_safe_reserve_all.
+Print Assumptions touched_readable.
